@@ -76,12 +76,10 @@ func vpC05Dump(tx *corazawaf.Transaction) []string {
 		}
 		return true
 	})
-	for _, v := range []variables.RuleVariable{variables.ResBodyError, variables.ResBodyErrorMsg, variables.ResBodyProcessorError, variables.ResBodyProcessorErrorMsg} {
-		if col := tx.Collection(v); col != nil {
-			for _, md := range col.FindAll() {
-				out = append(out, "resbody:"+v.Name()+"|"+md.Value())
-			}
-		}
+	// the response-body error variables are reachable through the getters of the concrete type
+	if tv, ok := tx.Variables().(*corazawaf.TransactionVariables); ok {
+		out = append(out, "RES_BODY_ERROR|"+tv.ResBodyError().Get(), "RES_BODY_ERROR_MSG|"+tv.ResBodyErrorMsg().Get(),
+			"RES_BODY_PROCESSOR_ERROR|"+tv.ResBodyProcessorError().Get(), "RES_BODY_PROCESSOR_ERROR_MSG|"+tv.ResBodyProcessorErrorMsg().Get())
 	}
 	return out
 }
@@ -190,6 +188,13 @@ func VpC05Isolation() {
 		}
 	}
 	vp.Assert(vpMultisetEq(o1.dump, o2.dump), "probe variables differ on the recycled transaction")
+	if handed != nil {
+		// the probe buffered a body of its own on the recycled object: the predecessor's reader
+		// must not see it
+		buf := make([]byte, 8)
+		n, err := handed.Read(buf)
+		vp.Assert(n == 0 && err == io.EOF, "a body reader handed out by the closed predecessor reads the next transaction's body")
+	}
 	_ = rec.Close()
 	_ = ref.Close()
 	vp.Reached("end")
